@@ -892,25 +892,26 @@ def all_injections_embeddings(p, t, scope):
     return res
 
 
-def property_check(p, t, scope, ops=True, accelerated=False):
+def property_check(p, t, scope, ops=True, accelerated=False, p_ref=None):
     """Run the real code on (p, t, scope) for both filter settings (+ operators) and compare with the reference.
     Returns (fails, signature, what)."""
     eff_scope = scope
+    pr = p if p_ref is None else p_ref   # what the pattern object DENOTES (a used-and-copied pattern denotes the pattern it was built as)
     try:
-        ref_all = reference_embeddings(p, t, eff_scope)
+        ref_all = reference_embeddings(pr, t, eff_scope)
     except OverflowError:
         return False, None, 'reference budget exceeded'
-    stereo_q = is_query(p) and has_query_stereo(p)
+    stereo_q = is_query(pr) and (has_query_stereo(pr) or has_query_stereo(p))
     if stereo_q:
-        verdicts = [stereo_reference_ok(p, t, m) for m in ref_all]
+        verdicts = [stereo_reference_ok(pr, t, m) for m in ref_all]
         if any(v is None for v in verdicts):
             return False, None, 'a stereo mark whose meaning the documentation does not define for this embedding (outside the oracle)'
         ref_all = [m for m, v in zip(ref_all, verdicts) if v]
     ref = canon(ref_all)
     if len(p._atoms) == 0:
         return False, None, 'empty pattern (outside the domain)'
-    if len(t._atoms) <= 7 and len(p._atoms) <= 5 and not stereo_q:
-        lit = canon(all_injections_embeddings(p, t, eff_scope))
+    if len(t._atoms) <= 7 and len(pr._atoms) <= 5 and not stereo_q:
+        lit = canon(all_injections_embeddings(pr, t, eff_scope))
         if lit != ref:
             return False, None, 'reference enumerators disagree (oracle problem, not reported)'
     if accelerated:
@@ -1463,6 +1464,28 @@ def gen_cases(ctx):
                 choices.append([['delete_atom', rng.choice(atoms)]])
         return rng.choice(choices)
 
+    # used-and-copied stereo queries (atom marks and bond marks must travel with the copy)
+    lab_t = [(x, molgen.parse(x)) for x in STEREO_TARGETS]
+    lab_t = [(x, m) for x, m in lab_t if m is not None]
+    for sm_ in (rng.sample(q_stereo, 14) if quick else q_stereo):
+        try:
+            obj = make_pattern({'smarts': sm_})
+        except Exception:
+            continue
+        hit = None
+        for x, m in rng.sample(lab_t, len(lab_t)):
+            try:
+                if next(iter(obj.get_mapping(m, _cython=False)), None) is not None:
+                    hit = m
+                    break
+            except Exception:
+                pass
+        if hit is None:
+            continue
+        base = wire.mol_to_ints(hit)
+        steps = [['new', {'smarts': sm_}], ['use', base], ['copy']] + ([['copy']] if rng.random() < 0.3 else [])
+        for v in (base, relabel(base, atoms='flip', bonds='flip')):
+            yield 'history:pattern-copy', {'hist': steps}, v, None
     n_hist = 60 if quick else 500
     for i in range(n_hist):
         query = rng.random() < 0.5
@@ -2282,7 +2305,11 @@ def check_input(inp):
     t = make_target(inp['target'])
     if inp.get('match_stereo'):
         return match_stereo_check(p, t)
-    return property_check(p, t, inp.get('scope'), accelerated=bool(inp.get('accelerated')))
+    p_ref = None
+    ps = inp['pattern']
+    if isinstance(ps, dict) and 'hist' in ps and all(h[0] in ('new', 'use', 'copy', 'touch') for h in ps['hist']):
+        p_ref = run_history(ps['hist'][:1])
+    return property_check(p, t, inp.get('scope'), accelerated=bool(inp.get('accelerated')), p_ref=p_ref)
 
 
 def reference_automorphisms(m, budget=500_000):
